@@ -136,6 +136,8 @@ def run(ctx):
     c01s.run_scope(ctx, res, thorough)
     # kept calls executed several times in one evaluation (loops)
     c01s.run_loops(ctx, res, thorough)
+    # the code lives in IPython cells
+    c01s.run_notebook(ctx, res, thorough)
     pipeline.close_ref()
     # the hypotheses of C01.sig_sound / memo_correct / history_correct on everything that was generated
     res.count("universe_function_versions", uc.functions)
